@@ -87,9 +87,9 @@ impl Head {
         if !url_string.starts_with('/') {
             return Err(HeadError::MalformedPath);
         }
-        let url = Url::options()
-            .base_url(Some(&Url::parse("http://unknown/").unwrap()))
-            .parse(url_string)
+        // Do not resolve the target against a base URL: a target that starts with "//"
+        // would then be taken for a host name.
+        let url = Url::parse(&format!("http://unknown{url_string}"))
             .map_err(|_| HeadError::MalformedPath)?;
         if proto_bytes != b"HTTP/1.1" {
             return Err(HeadError::UnsupportedProtocol);
